@@ -128,7 +128,9 @@ def judge_sequence(seq):
                 return False, "unit %d: more slices than remain" % k
             # declared (x, y) offset must be the raster position of the next expected slice (2 slices per row)
             declared = tuple(u["xy"]) if u.get("xy") is not None else (u["start"] % 2, u["start"] // 2)
-            if declared != (received % 2, received // 2) or u["start"] != received:
+            # (only the declared offset counts: a fragment whose slices were cut from another position but which
+            # declares the expected one is indistinguishable, for the decoder, from the right fragment)
+            if declared != (received % 2, received // 2):
                 return False, "unit %d: fragment slices not contiguous" % k
             received += u["count"]
             remaining -= u["count"]
